@@ -940,6 +940,21 @@ pub fn get_search_filter(
     q
 }
 
+//a literal used to page on a binary system field (id, room_id) is written in base64 and must be compared as a blob
+fn paging_string(
+    value: &str,
+    is_system: bool,
+    field_type: &FieldType,
+    prepared_query: &mut SingleQuery,
+) -> String {
+    let param = prepared_query.add_param(String::from(value), true);
+    if is_system && matches!(field_type, FieldType::Base64) {
+        format!("base64_decode({})", param)
+    } else {
+        param
+    }
+}
+
 pub fn get_paging(params: &EntityParams, prepared_query: &mut SingleQuery) -> String {
     let mut q = String::new();
 
@@ -968,7 +983,9 @@ pub fn get_paging(params: &EntityParams, prepared_query: &mut SingleQuery) -> St
                     ParamValue::Boolean(bool) => bool.to_string(),
                     ParamValue::Integer(i) => i.to_string(),
                     ParamValue::Float(f) => f.to_string(),
-                    ParamValue::String(s) => prepared_query.add_param(String::from(s), true),
+                    ParamValue::String(s) => {
+                        paging_string(s, ord.field.is_system, &ord.field.field_type, prepared_query)
+                    }
                     ParamValue::Binary(s) => prepared_query.add_param(String::from(s), true),
                     ParamValue::Null => String::from("null"),
                 },
@@ -996,7 +1013,9 @@ pub fn get_paging(params: &EntityParams, prepared_query: &mut SingleQuery) -> St
                 ParamValue::Boolean(bool) => bool.to_string(),
                 ParamValue::Integer(i) => i.to_string(),
                 ParamValue::Float(f) => f.to_string(),
-                ParamValue::String(s) => prepared_query.add_param(String::from(s), true),
+                ParamValue::String(s) => {
+                    paging_string(s, ord.field.is_system, &ord.field.field_type, prepared_query)
+                }
                 ParamValue::Binary(s) => prepared_query.add_param(String::from(s), true),
                 ParamValue::Null => String::from("null"),
             },
